@@ -98,7 +98,7 @@ def make_items(tier, seed):
         core.append({"ob": "decode", "src": src})
     if tier == "thorough":
         return core + rest
-    return slice_quick(core + rest, seed, len(core), 60)
+    return slice_quick(core + rest, seed, len(core), 140)
 
 
 def check_item(spec):
